@@ -61,10 +61,14 @@ def receiver_re(elem_name, is_root):
     return r"this->root_" if is_root else r"this->ui_->%s\b" % re.escape(elem_name)
 
 
-def header_places(header, fns, elem_name, is_root, setter):
-    """Update functions that write `setter` on the object."""
+def header_places(header, fns, elem_name, is_root, setter, prop):
+    """Update functions of property `prop` that write `setter` on the object.  Two properties of one class may share a setter
+    (QLCDNumber::value and ::intValue are both written through display()), so the function is also identified by the property
+    name it is generated from (update<Object><Property>[<n>])."""
     rx = re.compile(r"%s->%s\(" % (receiver_re(elem_name, is_root), re.escape(setter)))
-    return [n for n, body in fns.items() if n.startswith("update") and rx.search(body)]
+    cap = catalog.cap     # ASCII-only, as qtname::to_ascii_capitalized
+    nrx = re.compile(r"update%s%s\d*$" % (re.escape(cap(elem_name)), re.escape(cap(prop))))
+    return [n for n, body in fns.items() if nrx.match(n) and rx.search(body)]
 
 
 def callback_places(fns, elem_name, is_root, signal):
@@ -120,7 +124,7 @@ def judge_accepted(v, cat, d, r, stats):
                 setter = pinfo.get("write") if pinfo else None
                 if not setter:
                     continue
-                places = header_places(header, fns, name, is_root, setter)
+                places = header_places(header, fns, name, is_root, setter, m.path[0])
                 in_ui = m.path[0] in props
                 if isinstance(b, Group):
                     ge = props.get(m.path[0])
